@@ -544,10 +544,12 @@ def model_input(r: dict, mode, prefix_quirk: bool = False) -> str:
 
 def parse_model(block: typing.List[str]) -> dict:
     res = {'root': None, 'nodes': {}, 'all': collections.Counter(), 'datatypes': collections.Counter(), 'namespaces': collections.Counter(),
-           'find': {}, 'make_path': {}, 'rel': {}, 'err': None, 'all_seq': [], 'dt_seq': [], 'ns_seq': [], 'kids': {}, 'fold': None}
+           'find': {}, 'make_path': {}, 'rel': {}, 'err': None, 'all_seq': [], 'dt_seq': [], 'ns_seq': [], 'kids': {}, 'fold': None, 'raised': False}
     for l in block:
         t = l.split(' ')
-        if t[0] == 'ROOT':
+        if t[0] == 'RAISE':
+            res['raised'] = True
+        elif t[0] == 'ROOT':
             res['root'] = dec_key(t[1])
         elif t[0] == 'FOLD':
             res['fold'] = t[1] == '1'
@@ -705,6 +707,22 @@ def judge(case: dict, r: dict, kf_live: bool, models: typing.Optional[typing.Lis
         return v
     ns_fold, file_fold = fold_kinds(r['order'], r['strop'], r['es'])
     v['ns_fold'], v['file_fold'] = ns_fold, file_fold
+    if r.get('raised') is not None:
+        # build_namespace_tree refused the configuration (stem check).  Right iff a namespace file really is a type file, and
+        # nothing was written; the model (instantiated with the regenerated pin_c11tree_stem_check) must refuse it too.
+        o = oracle(r['order'], r['strop'], r['es'], r['ext'], r['stem'], r['outdir_parts'])
+        tfiles = set(o['paths'].values())
+        if not any(n['path'] in tfiles for n in o['nodes'].values()):
+            v['oracle'] = ['build_namespace_tree raised although no namespace file is a type file: %s' % r['raised'][:200]]
+        if r.get('after_build_new_files'):
+            v['oracle'].append('files written before the error: %r' % r['after_build_new_files'])
+        if models is not None and not all(m['raised'] for m in models):
+            v['model'] = ['implementation raised (%s) but the model does not' % r['raised'][:120]]
+        v['raised'] = True
+        return v
+    if models is not None and any(m['raised'] for m in models):
+        v['model'] = ['the model raises (stem check) but the implementation does not']
+        models = None
     od = oracle_diff(r, file_fold)
     c = canon_impl(r)
     if models is not None:
@@ -823,7 +841,7 @@ def main(chk: core.Check, replay: typing.Optional[str] = None) -> int:
         w = chk.known_entry(STEM_ID)['witness']
         wc = dict(id='kfstem', types=w['types'], lang=w['lang'], outdir='rel', generate='api', shuffle=0, ext=None, stem=w['stem'], es=None, user=None)
         r = run_impl([wc], workers=1)[0]
-        if 'err' not in r and r.get('generate_namespace_types'):
+        if 'err' not in r and r.get('raised') is None and r.get('generate_namespace_types'):
             paths = [tuple(x[2]) for x in r['all']]
             KF_STEM_LIVE = len(set(paths)) < len(paths) and len(r.get('new_files', [])) < len(paths)
         if KF_STEM_LIVE:
@@ -844,7 +862,11 @@ def main(chk: core.Check, replay: typing.Optional[str] = None) -> int:
         stats['file_fold_cases'] += v['file_fold']
         stats['known_finding_instances'] += v['kf']
         stats['stem_collision_instances'] += bool(v.get('kf_stem'))
-        if 'err' not in r:
+        if 'err' not in r and r.get('raised') is not None:
+            stats['refused_by_stem_check'] += 1
+            if models[i] is not None:
+                stats['model_vs_impl_compared'] += 1
+        elif 'err' not in r:
             nodes = {tuple(t[0][:j]) for t in r['order'] for j in range(1, len(t[0]) + 1)}
             empty = nodes - {tuple(t[0]) for t in r['order']}
             stropped = any(a != b for a, b in r['strop'].items())
